@@ -53,8 +53,17 @@ class Model:
     def apply(self, op):
         """returns expected outcome: ('ok', value) | ('err', 'TextXRegistrationError')"""
         k = op[0]
+        if k == 'rereg':
+            # the LanguageDesc object of the last registration through a description object, registered once more
+            last = getattr(self, 'last_desc', None)
+            if last is None:
+                return ('ok', None)
+            op = ('reg',) + last
+            k = 'reg'
         if k == 'reg':
             _, name, pattern, kind, tok = op
+            if tok[0] == 'L':
+                self.last_desc = (name, pattern, kind, tok)
             self._init_l()
             if name.lower() in self.langs:
                 return ('err', 'TextXRegistrationError')
@@ -147,6 +156,7 @@ class Real:
         self.mm_tok = {}        # id(mm) -> token
         self.returned = []      # every metamodel returned by a metamodel_for_* call so far
         self.factory_calls = 0
+        self.last_desc_obj = None
 
     def tok_of_desc(self, d):
         if id(d) in self.desc_tok:
@@ -167,6 +177,11 @@ class Real:
         from textx.exceptions import TextXRegistrationError
         k = op[0]
         try:
+            if k == 'rereg':
+                d = getattr(self, 'last_desc_obj', None)
+                if d is not None:
+                    R.register_language(d)
+                return ('ok', None)
             if k == 'reg':
                 _, name, pattern, kind, tok = op
                 if kind == 'inst':
@@ -184,6 +199,7 @@ class Real:
                     d = R.LanguageDesc(name, pattern, '', target)
                     self.keep.append(d)
                     self.desc_tok[id(d)] = tok
+                    self.last_desc_obj = d
                     R.register_language(d)
                 else:
                     before = set(map(id, (R.languages or {}).values()))
@@ -293,6 +309,8 @@ def all_ops():
         ops.append(('mmfile', f, False))
         ops.append(('mmfile', f, True))
     ops.append(('clearl',))
+    ops.append(('rereg',))
+    ops.append(('rereg',))
     for lang in GLANGS:
         for t in TARGETS:
             ops.append(('greg', lang, t, ('G', lang, t)))
